@@ -133,7 +133,7 @@ for _cls, _err in (("Uint", "InvalidUintCap"), ("Int", "InvalidIntCap")):
         E.cover("requires")
 
 
-@astproof("py:_ast.Array.validate_array_cap", "Array.validate_array_cap", ["C08"],
+@astproof("py:_ast.Array.validate_array_cap", "Array.validate_array_cap", ["C08", "C05"],
           must=["cap/accepted-only-if-valid", "cap/rejected-only-if-invalid"])
 def _arr_cap(E, A):
     """raises InvalidArrayCap  <=>  not (1 <= cap <= 65535)"""
@@ -251,7 +251,7 @@ def _push(E, A):
     E.oblige("name/order", z3.BoolVal(list(m.members.keys()) == ["A", "a", "B", "Y"]))
 
 
-@astproof("py:_ast.Message.validate_post_freeze", "Message.validate_post_freeze", ["C08"],
+@astproof("py:_ast.Message.validate_post_freeze", "Message.validate_post_freeze", ["C08", "C05"],     # C05: the size fits the 16-bit prefix
           must=["size/accepted-only-if-valid", "size/rejected-only-if-invalid"],
           calls=["Message.nbits", "Type.nbytes", "ScopeWithOptions.get_option_as_int_or_raise"])
 def _msg_size(E, A):
@@ -412,3 +412,42 @@ def _optvals(E, A):
     E.oblige("validator:defaults", z3.BoolVal(d["max_bytes"].default == 0 and d["c.struct_packing_alignment"].default == 0
                                               and all(d[k].validator is None and d[k].default == "" for k in
                                                       ("c.name_prefix", "go.package_path", "py.module_name"))))
+
+
+@astproof("py:_ast.ScopeWithOptions.options", "ScopeWithOptions.options", ["C08"], must=["post:"])
+def _own_options(E, A):
+    """a scope's options are exactly the options declared in THAT scope (declaration order), whatever options the scopes nested in it
+    declare - before or after, at any depth; option(name) / get_option_as_int_or_raise(name) read those and fall back to the default"""
+    proto = A.Proto(name="p")
+    mk = lambda v: A.IntegerOption(name="max_bytes", value=v, _bound=proto)
+    # own option declared BEFORE a nested message that has its own
+    outer, inner, deep = A.Message(name="Outer", _bound=proto), A.Message(name="Inner", _bound=proto), A.Message(name="Deep", _bound=proto)
+    o9, o5, o2 = mk(9), mk(5), mk(2)
+    deep.push_member(o2)
+    inner.push_member(o5)
+    inner.push_member(deep)
+    outer.push_member(o9)
+    outer.push_member(inner)
+    E.oblige("post:own-option-before-nested", z3.BoolVal([o for _, o in outer.options()] == [o9]
+                                                         and outer.get_option_as_int_or_raise("max_bytes") == 9
+                                                         and [o for _, o in inner.options()] == [o5]
+                                                         and inner.get_option_as_int_or_raise("max_bytes") == 5
+                                                         and deep.get_option_as_int_or_raise("max_bytes") == 2))
+    # no own option, nested message has one
+    outer2, inner2 = A.Message(name="Outer2", _bound=proto), A.Message(name="Inner2", _bound=proto)
+    inner2.push_member(mk(3))
+    outer2.push_member(inner2)
+    E.oblige("post:no-own-option", z3.BoolVal(outer2.options() == [] and outer2.get_option_as_int_or_raise("max_bytes") == 0))
+    # own option declared AFTER the nested message
+    outer3, inner3 = A.Message(name="Outer3", _bound=proto), A.Message(name="Inner3", _bound=proto)
+    inner3.push_member(mk(4))
+    outer3.push_member(inner3)
+    o7 = mk(7)
+    outer3.push_member(o7)
+    E.oblige("post:own-option-after-nested", z3.BoolVal([o for _, o in outer3.options()] == [o7]
+                                                        and outer3.get_option_as_int_or_raise("max_bytes") == 7))
+    # proto level: the proto's own options only
+    m = A.Message(name="M", _bound=proto)
+    m.push_member(mk(6))
+    proto.push_member(m)
+    E.oblige("post:proto-level", z3.BoolVal(all(not isinstance(o, A.IntegerOption) or o.name != "max_bytes" for _, o in proto.options())))
